@@ -133,7 +133,7 @@ def eval_case(sg, start, n, inject):
             cond["pat"] = {"k": cond["pat"]["k"], "s": cond["pat"].get("s", ""), "set": cond["pat"].get("set", [])}
             alts.append({"cond": cond, "rhs": [e for e in a["rhs"] if e["k"] not in ("L", "R")],
                          "P": alt_P(a, it["kind"] == "unit")})
-        items.append({"name": it["name"], "params": it["params"], "alts": alts})
+        items.append({"name": it["name"], "params": it["params"], "kind": it["kind"], "alts": alts})
     return {"id": "%s@%s" % (sg["id"], start), "ts": list(sg["ts"]), "start": start, "n": n, "inject": inject,
             "sugar": {"items": items}}
 
